@@ -1769,7 +1769,10 @@ class SQLParser:
             children_scanner = scanner.pop_as_children_scanner()
             compute_expression = cls._parse_compute_expression(children_scanner, sql_type)  # 解析
             children_scanner.close()
-            save_mode = static.GENERATE_COLUMN_SAVE_MODE_HASH.get(scanner.pop_as_source().upper())
+            save_mode = static.GENERATE_COLUMN_SAVE_MODE_HASH.get((scanner.get_as_source_or_null() or "").upper())
+            if save_mode is None:
+                raise SqlParseError(f"计算字段缺少 VIRTUAL 或 STORED 关键字: {scanner}")
+            scanner.move()
             return node.ASTGeneratedColumn(
                 expression=compute_expression,
                 save_mode=save_mode
